@@ -96,6 +96,14 @@ class HashFileDB(ObjectDB):
                 except (ObjectFormatError, FileNotFoundError):
                     pass
 
+        failed: set[str] = set()
+        _on_error = None
+        if on_error is not None:
+
+            def _on_error(_oid: str, exc: BaseException):
+                failed.add(_oid)
+                on_error(_oid, exc)
+
         transferred = super().add(
             paths,
             fs,
@@ -103,11 +111,13 @@ class HashFileDB(ObjectDB):
             hardlink=hardlink,
             callback=callback,
             check_exists=check_exists,
-            on_error=on_error,
+            on_error=_on_error,
             **kwargs,
         )
 
-        oid_cache_paths = {o: self.oid_to_path(o) for o in oids}
+        # NOTE: whatever sits under the name of an object that could not be
+        # transferred was not put there by this call: do not vouch for it.
+        oid_cache_paths = {o: self.oid_to_path(o) for o in oids if o not in failed}
         for o, cache_path in oid_cache_paths.items():
             try:
                 if verify:
